@@ -110,8 +110,8 @@ def trace(fn, args, kwargs=None):
         a, kw = jax.tree.unflatten(treedef, ls)
         out = fn(*a, **kw)
         oleaves, otree = jax.tree.flatten(out)
-        is_dyn = [eqx.is_array(l) or isinstance(l, (np.ndarray, np.generic, bool, int, float)) and not isinstance(l, str)
-                  for l in oleaves]
+        # arrays are dynamic outputs; Python scalars (static module fields such as epsilon, flags) stay static, as under eqx.filter_jit
+        is_dyn = [eqx.is_array(l) or isinstance(l, (np.ndarray, np.generic)) for l in oleaves]
         # python scalars / numpy values become constants of the program
         dyn_out = [jnp.asarray(l) for l, d in zip(oleaves, is_dyn) if d]
         box["otree"] = otree
